@@ -12,9 +12,11 @@ CONSTANTS
   Compiled = {"x1"}
   MaxBlocks = 3
   MaxDiff = 3
+  ReadFaults = TRUE
+  Bug = "none"
 INIT Init
 NEXT Next
 VIEW view
 INVARIANTS LeavesRight CommitmentRight VersionsDifferOnlyWithoutClasses
-PROPERTIES RestartIsNoOp
+PROPERTIES RestartIsNoOp FailedUpdateIsNoOp
 CHECK_DEADLOCK FALSE
